@@ -6,7 +6,7 @@ from rtverif import ref_dense
 from rtverif.props.base import Prop, Verdict, fmt
 from rtverif.props.c04 import sig_text, sig_from_json
 
-KINDS = ('dt_off', 'dt_off', 'dt_on', 'ct_off', 'ct_on')
+KINDS = ('dt_off', 'dt_off', 'dt_on', 'ct_off', 'ct_on', 'dt_on_pastified')
 FACTORS = (0.25, 0.5, 0.75, 0.99)
 INF = float('inf')
 
@@ -27,7 +27,7 @@ def perturbations(rng, shape, rho, count):
 
 class C07(Prop):
     id = 'C07'
-    rule_added = '30% of the discrete online cases run on an object that served another trace and was reset(). 35% of the online cases with duplicated sub-formulas. 25% of the dense online cases feed the inputs as fields of one object-typed variable.'
+    rule_added = 'Sixth kind: discrete online after pastify() (update #i speaks about time i-h on the trace seen so far; sign part only; 30% after an earlier run and reset()). 30% of the discrete online cases run on an object that served another trace and was reset(). 35% of the online cases with duplicated sub-formulas. 25% of the dense online cases feed the inputs as fields of one object-typed variable.'
     rule = ('random iff/xor-free, Boolean-typed formulas (predicates over arithmetic terms; Boolean, rise/fall, '
             'past/future operators) on the 4 monitor kinds (online kinds on the past fragment): (1) every returned '
             'value >0 (<0) is checked against an independent Boolean evaluator: the formula must be satisfied '
@@ -53,6 +53,10 @@ class C07(Prop):
                             iffxor=False, unless=True, max_bound=rng.choice([2, 4, 6]), const_pred=0.0)
         else:
             c = lang.dense_cfg(rng, iffxor=False, const_pred=0.0)
+        if kind == 'dt_on_pastified':
+            c.unbounded_future = False
+            c.max_bound = rng.choice([1, 2, 3])
+            c.max_depth = min(c.max_depth, 3)
         if kind.endswith('_on'):
             c.future = False
             if rng.random() < 0.35:
@@ -61,17 +65,24 @@ class C07(Prop):
             c.arith = False
         for _ in range(200):
             f = lang.gen_formula(rng, c)
-            if ref_bool.boolean_typed(f) and (not simple or ref_bool.var_vs_const_only(f)):
+            if ref_bool.boolean_typed(f) and (not simple or ref_bool.var_vs_const_only(f)) and (
+                    kind != 'dt_on_pastified' or 0 < lang.horizon(f) <= 8):
                 break
         else:
             f = lang.N('geq', lang.V('x'), lang.C(1.0))
+        if kind == 'dt_on_pastified' and rng.random() < 0.5 and lang.has_future(f):
+            # a past operator above the look-ahead: after pastify() it starts when its operand does
+            o = rng.choice(['historically', 'once', 'historically', 'once', 'prev', 's_prev'])
+            f = lang.N(o, f) if (o in ('prev', 's_prev') or rng.random() < 0.6) else lang.N(o, f, ivl=(0, rng.randint(1, 3)))
         names = lang.variables(f) or ['x']
         case = {'formula': f, 'kind': kind, 'pseed': rng.randrange(1 << 30)}
         if rng.random() < 0.1:
             case['useed'] = rng.randrange(1 << 30)
         if kind.startswith('dt'):
             case['data'] = lang.gen_trace(rng, names, rng.randint(1, 16))
-            if kind == 'dt_on' and rng.random() < 0.3:
+            if kind == 'dt_on_pastified':
+                case['data'] = lang.gen_trace(rng, names, rng.randint(1, 14) + min(lang.horizon(f), 8))
+            if kind in ('dt_on', 'dt_on_pastified') and rng.random() < (0.3 if kind == 'dt_on' else 0.6):
                 case['prelude'] = lang.gen_trace(rng, names, rng.randint(1, 10))   # an earlier run, then reset()
         else:
             sig = lang.gen_signals(rng, names)
@@ -100,6 +111,10 @@ class C07(Prop):
         if kind == 'dt_on':
             res = drive.dt_online(text, names, data, prelude=prelude, sd=self._iasd)
             return [(t, v) for t, v in enumerate(res)]
+        if kind == 'dt_on_pastified':
+            # update #i speaks about time i-h on the trace seen so far; the claim is indexed by the update
+            res = drive.dt_online(text, names, data, prelude=prelude, sd=self._iasd, pastify=True)
+            return [(i, v) for i, v in enumerate(res) if i >= self._h]
         if kind == 'ct_off':
             out = drive.ct_offline(text, names, sig)
         else:
@@ -137,6 +152,10 @@ class C07(Prop):
             data = case['data']
             names = sorted(data)
             n = len(data[names[0]])
+            self._h = lang.horizon(f)
+            if kind == 'dt_on_pastified' and not (0 < self._h <= 8 and not lang.has_unbounded_future(f)):
+                v.skip = 'not a bounded-future formula'
+                return v
             try:
                 sat = ref_bool.sat_discrete(f, data, n)
                 claims = self.run_real(kind, text, names, data=data, prelude=case.get('prelude'))
@@ -149,6 +168,9 @@ class C07(Prop):
                 v.skip = 'monitor raised %s' % type(e).__name__
                 return v
             probe = lambda t: sat[t]
+            if kind == 'dt_on_pastified':
+                h7 = self._h
+                probe = lambda i: ref_bool.sat_discrete(f, dict((kk, data[kk][:i + 1]) for kk in names), i + 1)[i - h7]
         else:
             sig = sig_from_json(case['signals'])
             names = sorted(sig)
@@ -198,7 +220,7 @@ class C07(Prop):
                 usable.append((t, rho, s))
         v.nontrivial = bool(usable)
         v.info['claims'] = len(usable)
-        if not usable or not ref_bool.var_vs_const_only(f) or self._iasd:
+        if not usable or not ref_bool.var_vs_const_only(f) or self._iasd or kind == 'dt_on_pastified':
             return v
         v.info['perturbed-cases'] = 1
         k = case.get('nperturb', 8)
